@@ -165,11 +165,15 @@ def find_yield(fn: ast.FunctionDef, chunk_id: bytes) -> Optional[ast.expr]:
 
 
 def subst_locals(fn: ast.FunctionDef, expr: ast.expr, depth: int = 4) -> ast.expr:
-    """Copy of `expr` with every local name that `fn` assigns exactly once (`name = rhs`, before the use,
-    not in a loop, never aug-assigned / deleted / used as a loop or with target) replaced by its rhs."""
+    """Copy of `expr` with every local name that `fn` assigns exactly once (`name = rhs`, before the use, never
+    aug-assigned / deleted / used as a loop or with target) replaced by its rhs.  A name assigned inside a loop is
+    substituted only for uses inside the same loop."""
     import copy
+    if not hasattr(fn, "_seq"):
+        from .inline import number
+        number(fn)
     assigned: Dict[str, list] = {}
-    loop_span: Dict[str, Tuple[int, int]] = {}     # name -> line span of the innermost loop that assigns it
+    loop_span: Dict[str, Tuple[int, int]] = {}     # name -> sequence span of the innermost loop that assigns it
     loop_targets = set()
     for n in walk_no_nested(fn):
         if isinstance(n, (ast.For, ast.While, ast.AsyncFor)):
@@ -180,12 +184,16 @@ def subst_locals(fn: ast.FunctionDef, expr: ast.expr, depth: int = 4) -> ast.exp
             for st in n.body + n.orelse:
                 for m in ast.walk(st):
                     if isinstance(m, ast.Name) and isinstance(m.ctx, (ast.Store, ast.Del)):
-                        span = (n.lineno, getattr(n, "end_lineno", n.lineno))
+                        span = (n._seq, n._seq_end)
                         old = loop_span.get(m.id)
                         if old is None or (span[0] >= old[0] and span[1] <= old[1]):
                             loop_span[m.id] = span
         if isinstance(n, ast.Name) and isinstance(n.ctx, (ast.Store, ast.Del)):
             assigned.setdefault(n.id, []).append(n)
+        if isinstance(n, (ast.comprehension,)):
+            for m in ast.walk(n.target):
+                if isinstance(m, ast.Name):
+                    loop_targets.add(m.id)
     single: Dict[str, ast.Assign] = {}
     for n in walk_no_nested(fn):
         if isinstance(n, ast.Assign) and len(n.targets) == 1 and isinstance(n.targets[0], ast.Name):
@@ -194,30 +202,39 @@ def subst_locals(fn: ast.FunctionDef, expr: ast.expr, depth: int = 4) -> ast.exp
                 single[name] = n
 
     class Sub(ast.NodeTransformer):
-        def __init__(self, d):
+        def __init__(self, d, at):
             self.d = d
+            self.at = at
 
         def visit_Name(self, node):
             a = single.get(node.id)
+            use = getattr(node, "_seq", self.at)
             span = loop_span.get(node.id)
-            use_line = getattr(node, "lineno", None)
-            if span is not None and not (use_line is not None and span[0] <= use_line <= span[1]):
+            if span is not None and not (use is not None and span[0] <= use <= span[1]):
                 return node          # assigned in a loop, used outside it
-            if isinstance(node.ctx, ast.Load) and a is not None and a.lineno < getattr(node, "lineno", a.lineno + 1) and self.d > 0:
+            if isinstance(node.ctx, ast.Load) and a is not None and use is not None and a._seq < use and self.d > 0:
                 new = copy.deepcopy(a.value)
                 for m in ast.walk(new):
                     if hasattr(m, "lineno"):
-                        m.lineno = node.lineno
-                        m.end_lineno = node.lineno
-                return Sub(self.d - 1).visit(new)
+                        m.lineno = getattr(node, "lineno", m.lineno)
+                        m.end_lineno = getattr(node, "end_lineno", m.lineno)
+                    m._seq = use
+                    m._seq_end = use
+                return Sub(self.d - 1, use).visit(new)
             return node
-    return Sub(depth).visit(copy.deepcopy(expr))
+    at = getattr(expr, "_seq", None)
+    if at is None:
+        # an expression that is not a node of fn (already substituted elsewhere): treat as used at the end
+        at = getattr(fn, "_seq_end", 10 ** 9)
+    return Sub(depth, at).visit(copy.deepcopy(expr))
 
 
 def check_pack_pair(repo: Repo, rep, P: str, rule: str, writer_ci: ClassInfo, writer_fn: str, chunk_id: bytes,
                     reader_ci: ClassInfo, widths: Dict[str, int], obj_prefix=("self", "object")):
     """`pack(FMT, EXPR(self.a, self.b))` in the writer vs the statements of `process_<ID>` in the reader."""
     _, wfn = repo.method(writer_ci, writer_fn)
+    from . import inline
+    wfn = inline.flatten(repo, writer_ci, wfn)
     cid = chunk_id.decode().strip()
     wconstruct = f"{writer_ci.file.rel}:{writer_ci.qualname}.{writer_fn}[{cid}]"
     payload = find_yield(wfn, chunk_id)
@@ -255,6 +272,8 @@ def check_pack_pair(repo: Repo, rep, P: str, rule: str, writer_ci: ClassInfo, wr
     lost = [i for i in range(size * 8, bits.W) if word.lanes[i] != 0]
     word = word.truncate(size * 8)
     handler = reader_ci.methods.get(f"process_{cid}")
+    if handler is not None:
+        handler = inline.flatten(repo, reader_ci, handler)
     rconstruct = f"{reader_ci.file.rel}:{reader_ci.qualname}.process_{cid}"
     if handler is None:
         rep.violation(f"{P}.{rule}", rconstruct, f"def process_{cid}", f"reader has no handler for {cid}",
